@@ -5,7 +5,8 @@
 From Coq Require Import ZArith List Bool String.
 From TV Require Import Base.Prelude Model.C19_Settings Spec.C19_Domain
                        Proofs.C19_Frame Proofs.C19_Examples Proofs.C19_Refuted
-                       Proofs.C19_Pure Proofs.C19_Idem Proofs.C19_Facts Proofs.C19_Supported.
+                       Proofs.C19_Pure Proofs.C19_Idem Proofs.C19_Facts Proofs.C19_Supported Proofs.C19_Domain
+                       Gen.SettingsTables Proofs.C19_Skeleton.
 Import ListNotations.
 Open Scope Z_scope.
 
@@ -101,3 +102,86 @@ Theorem validate_refines_contents :
     | (h', Err e) => cvalidate T I (lists h s) (sc s) = Err e
     end.
 Proof. exact validate_refines_contents_lemma. Qed.
+
+(* ================= 4. "rejects with ValueError every value outside the documented domains" ===== *)
+(* dom T d (Spec/C19_Domain.v) is the documented domain of dimension d, written from the docstrings,
+   the module tables and the ValueError texts; typed says every value has the documented Python type
+   (the configurations the property quantifies over).  Full statement, per dimension: *)
+Definition rejects_outside_domain_statement : Prop :=
+  forall T I h s d, wf h s = true -> typed (view h s) = true -> dom T d (view h s) = false ->
+    snd (validate T I h s) = Err ValueError.
+
+(* FALSE: dc_sig_algs = [rsa_pss_rsae_sha256] is accepted (the membership test compares the list with
+   each tuple); so is a 16-byte ticket key with ticketCipher = chacha20-poly1305. *)
+Theorem rejects_outside_domain_refuted : ~ rejects_outside_domain_statement.
+Proof. exact rejects_refuted. Qed.
+
+Example rejects_refuted_witness_dc_sig_algs :
+  wf ex_heap_dc ex_settings = true /\ typed (view ex_heap_dc ex_settings) = true /\
+  dom std_tables D_dc_sig_algs (view ex_heap_dc ex_settings) = false /\
+  is_ok (snd (validate std_tables all_backends ex_heap_dc ex_settings)) = true.
+Proof. exact dc_witness. Qed.
+
+Example rejects_refuted_witness_ticketKeys :
+  wf ex_heap_tk ex_settings_tk = true /\ typed (view ex_heap_tk ex_settings_tk) = true /\
+  dom std_tables D_ticketKeys (view ex_heap_tk ex_settings_tk) = false /\
+  is_ok (snd (validate std_tables all_backends ex_heap_tk ex_settings_tk)) = true.
+Proof. exact ticket_witness. Qed.
+
+(* Proved: every other dimension (30 of 32; lax_dims = [D_dc_sig_algs; D_ticketKeys], and for ticketKeys
+   the weaker "16 or 32 bytes" is enforced, see accepted_in_enforced_domain) is rejected with ValueError.
+   Aliasing hypothesis as in 2. *)
+Theorem rejects_outside_domain_partial :
+  forall T I h s d, wf h s = true -> impl_unaliased s -> typed (view h s) = true ->
+    is_lax d = false -> dom T d (view h s) = false ->
+    snd (validate T I h s) = Err ValueError.
+Proof. exact validate_rejects_unaliased. Qed.
+
+(* on contents, without any aliasing hypothesis: whatever is accepted satisfies every enforced domain,
+   and a typed input never produces another exception class *)
+Theorem accepted_implies_enforced_domains :
+  forall T I v c v', List.length v = NF -> cvalidate T I v c = Ok v' ->
+    forallb (fun d => dom_enforced T d (v, c)) all_dims = true.
+Proof. exact accepted_in_enforced_domain. Qed.
+
+Theorem typed_inputs_raise_only_ValueError :
+  forall T I v c e, List.length v = NF -> typed (v, c) = true -> cvalidate T I v c = Err e -> e = ValueError.
+Proof. exact typed_errors. Qed.
+
+(* the hypothesis `typed` is needed: an int in pskConfigs gives TypeError, not ValueError (recorded by
+   the harness for every attribute in the stream wrong-type-outcomes) *)
+Example wrong_kind_other_exception :
+  wf ex_heap_badpsk ex_settings = true /\ typed (view ex_heap_badpsk ex_settings) = false /\
+  snd (validate std_tables all_backends ex_heap_badpsk ex_settings) = Err TypeError.
+Proof. exact wrong_kind_witness. Qed.
+
+(* ================= 4b. accepts inside the domains ============================================ *)
+Definition accepts_inside_domain_statement : Prop :=
+  forall T I h s, wf h s = true -> typed (view h s) = true -> in_domain T (view h s) = true ->
+    something_supported I (view h s) = true -> is_ok (snd (validate T I h s)) = true.
+
+Theorem accepts_inside_domain_partial :
+  forall T I h s, wf h s = true -> impl_unaliased s -> typed (view h s) = true ->
+    in_domain T (view h s) = true -> something_supported I (view h s) = true ->
+    is_ok (snd (validate T I h s)) = true.
+Proof. exact validate_accepts_unaliased. Qed.
+
+Theorem accepts_inside_domain_contents :
+  forall T I v c, List.length v = NF -> typed (v, c) = true -> in_domain T (v, c) = true ->
+    something_supported I (v, c) = true -> exists v', cvalidate T I v c = Ok v'.
+Proof. exact accepts_inside. Qed.
+
+Example domain_hypotheses_satisfiable :
+  wf ex_heap ex_settings = true /\ typed (view ex_heap ex_settings) = true /\
+  in_domain std_tables (view ex_heap ex_settings) = true /\
+  something_supported no_backends (view ex_heap ex_settings) = true.
+Proof. exact default_in_domain. Qed.
+
+(* ================= 0. the hand model still has the shape of the source ========================= *)
+(* gen_* are regenerated from the ast of tlslite/handshakesettings.py on every run: the 41 assignments of
+   the three _copy_* methods (all `other.x = self.x`), the statement sequence of validate(), every
+   in-place list mutation site, the attributes set by __init__. *)
+Theorem model_skeleton_matches_source :
+  gen_copies = expected_copies /\ gen_validate_seq = expected_validate_seq /\
+  gen_mutation_sites = expected_mutation_sites /\ gen_init_attrs = expected_init_attrs.
+Proof. exact skeleton_ok. Qed.
